@@ -29,6 +29,13 @@ CHECKS = {
         "Trusts vf/refcodec.py as a faithful transcription of EN 302 636-4-1 V1.4.1 clause 9 and EN 302 636-5-1 clause 7; LT octets are compared by "
         "value (the base choice is not prescribed); secured packets are covered by C05, not here.",
     ),
+    "C08": (
+        "model-based history testing (hypothesis event lists on a virtual clock) plus algebraic-law checks on timestamp pairs/triples",
+        "Reception/clock histories around the 2^32 ms wrap are replayed on the real router and compared after every event with a reference "
+        "location-table model (newest PV by serial arithmetic, neighbour flag, expiry); the timestamp order is checked for irreflexivity, "
+        "antisymmetry, agreement with real time below 2^31 ms, operator consistency and transitivity on boundary-biased tuples.",
+        "Sampled histories (<= 80 events, 4 sources); no verdict within 2 ms of the lifetime boundary; lazy purging between receptions is a recorded known finding.",
+    ),
 }
 
 NOT_APPLICABLE = {
